@@ -300,6 +300,14 @@ func mirrorSafe(s *Site) bool {
 			}
 			return b && d
 		}
+		if s.Path == "shutdown" {
+			b, d := false, false
+			for _, x := range s.After {
+				b = b || x == "stopped:router.broker"
+				d = d || x == "stopped:router.dealer"
+			}
+			return b && d
+		}
 		return false
 	case "mapwrite":
 		return s.NonNil != ""
